@@ -229,8 +229,15 @@ def build_circuit(spec):
         else:
             t = d['type']
             kw = {}
+            evs = []
             if name in feeders:
-                kw['on_output'] = edzed.Event(feeders[name], 'put')
+                evs.append(edzed.Event(feeders[name], 'put'))
+            for r in spec.get('resets', ()):
+                if r['feeder'] == name:
+                    # settling feedback through events: limit reached -> reset the counter
+                    evs.append(edzed.Event(r['counter'], edzed.EventCond('reset', None)))
+            if evs:
+                kw['on_output'] = evs[0] if len(evs) == 1 else evs
             if t in ('Not', 'And', 'Or', 'Xor'):
                 blk = getattr(edzed, t)(name, **kw)
             elif t == 'Override':
@@ -544,6 +551,45 @@ def random_spec(rng):
     return spec
 
 
+def reset_loop_spec(rng):
+    """
+    A settling event loop: Counter -> Compare (limit reached) -> 'reset' event back to the
+    Counter, plus a few consumers.  Enough plain sources keep 3*n above the evaluation count.
+    """
+    while True:
+        spec = random_spec(rng)
+        if len(spec['cblocks']) <= 3 and not spec['fed']:
+            break
+    cnt = {'name': 'n9', 'kind': 'Counter', 'init': rng.randrange(0, 2)}
+    limit = rng.choice([2, 3, 4])
+    lim = {'name': 'lim', 'type': 'Compare', 'args': [['blk', 'n9', rng.random() < 0.5]], 'kw': {},
+           'kwgroup': {}, 'params': {'low': limit, 'high': limit}}
+    spec['sources'] = spec['sources'] + [cnt] + [
+        {'name': f"ix{i}", 'kind': 'Input', 'init': False} for i in range(4)]
+    consumers = [
+        {'name': 'lim_not', 'type': 'Not', 'args': [['blk', 'lim', True]], 'kw': {}, 'kwgroup': {}, 'params': {}},
+        {'name': 'lim_and', 'type': rng.choice(['And', 'Or', 'Xor']),
+         'args': [['blk', 'lim', False], ['blk', 'n9', False]], 'kw': {}, 'kwgroup': {}, 'params': {}},
+    ][:rng.choice([1, 2])]
+    spec['cblocks'] = spec['cblocks'] + [lim] + consumers
+    spec['resets'] = [{'feeder': 'lim', 'counter': 'n9'}]
+    order = [s['name'] for s in spec['sources']] + [c['name'] for c in spec['cblocks']]
+    rng.shuffle(order)
+    spec['order'] = order
+    spec['shortcuts'] = collect_shortcuts(spec['cblocks'])
+    return spec
+
+
+def reset_loop_bursts(rng, spec):
+    bursts = []
+    for _ in range(rng.randrange(5, 14)):
+        if rng.random() < 0.75:
+            bursts.append([('n9', 'inc', None)])
+        else:
+            bursts.extend(random_bursts(rng, spec)[:1])
+    return bursts
+
+
 def random_bursts(rng, spec):
     bursts = []
     for _ in range(rng.randrange(3, 12)):
@@ -583,14 +629,17 @@ def run_shard(ctx):
     n = 250 if quick else 6000
     done = 0
     while done < n:
-        spec = random_spec(rng)
+        loop = rng.random() < 0.12
+        spec = reset_loop_spec(rng) if loop else random_spec(rng)
         nblocks = len(spec['order']) + len(spec['shortcuts'])
         ok, total = eval_bound(spec, nblocks)
         if not ok:
             ctx.count('discarded_eval_bound')
             continue
         done += 1
-        bursts = random_bursts(rng, spec)
+        bursts = reset_loop_bursts(rng, spec) if loop else random_bursts(rng, spec)
+        if loop:
+            ctx.count('event_loop_circuits')
         case = {'spec': spec, 'bursts': bursts}
         try:
             nontrivial, state = run_spec(spec, bursts, ctx, case)
